@@ -117,6 +117,12 @@ def stmts_src(ss, ind, flat=None, elif_ok=None):
             if s[3]:
                 out.append(f"{pad}else:")
                 out += stmts_src(s[3], ind + 1, flat, elif_ok)
+        elif k == "For":
+            out.append(f"{pad}for v{s[1]} in {expr_src(s[2], flat)}:")
+            out += stmts_src(s[3], ind + 1, flat, elif_ok)
+            if s[4]:
+                out.append(f"{pad}else:")
+                out += stmts_src(s[4], ind + 1, flat, elif_ok)
         else:
             out.append(pad + simple_src(s, flat))
     return out
@@ -201,6 +207,44 @@ def stmts_coq(ss):
     s = "SNil"
     for x in reversed(ss):
         s = f"(SCons {stmt_coq(x)} {s})"
+    return s
+
+
+def has_for(ss):
+    for s in ss:
+        if s[0] == "For":
+            return True
+        if s[0] in ("If", "While") and (has_for(s[2]) or has_for(s[3])):
+            return True
+    return False
+
+
+def fstmt_coq(s):
+    """statement of coq/C03/ForModel.v (parallel syntax with `for`)"""
+    k = s[0]
+    if k == "Assign":
+        t = s[1]
+        tc = f"(TName {var_coq(t[1])})" if t[0] == "TName" else "(TTuple [" + "; ".join(str(n) for n in t[1]) + "])"
+        return f"(FAssign {tc} {expr_coq(s[2])})"
+    if k == "Aug":
+        return f"(FAug {s[1]} B{s[2]} {expr_coq(s[3])})"
+    if k == "Expr":
+        return f"(FExpr {expr_coq(s[1])})"
+    if k == "If":
+        return f"(FIf {expr_coq(s[1])} {fstmts_coq(s[2])} {fstmts_coq(s[3])})"
+    if k == "While":
+        return f"(FWhile {expr_coq(s[1])} {fstmts_coq(s[2])} {fstmts_coq(s[3])})"
+    if k == "For":
+        return f"(FFor {s[1]} {expr_coq(s[2])} {fstmts_coq(s[3])} {fstmts_coq(s[4])})"
+    if k == "Return":
+        return "(FReturn None)" if s[1] is None else f"(FReturn (Some {expr_coq(s[1])}))"
+    return {"Break": "FBreak", "Continue": "FContinue", "Pass": "FPass"}[k]
+
+
+def fstmts_coq(ss):
+    s = "FNil"
+    for x in reversed(ss):
+        s = f"(FCons {fstmt_coq(x)} {s})"
     return s
 
 
@@ -334,7 +378,33 @@ def from_ast_expr(n):
         return ("Call", int(n.func.id[1:]), [from_ast_expr(a) for a in n.args])
     if isinstance(n, ast.Tuple):
         return ("Tuple", [from_ast_expr(a) for a in n.elts])
+    # the iterator protocol of CFGBuilder.visit_For (reserved function numbers of ForModel.v)
+    if type(n).__name__ == "MakeIter":
+        return ("Call", 1000, [from_ast_expr(n.value)])
+    if type(n).__name__ == "IterNext":
+        return ("Call", 1001, [from_ast_expr(n.value)])
+    if isinstance(n, ast.Call) and isinstance(n.func, ast.Attribute) and isinstance(n.func.value, ast.Name) \
+            and not n.args and not n.keywords and n.func.attr in ("is_some", "unwrap_nothing"):
+        return ("Call", {"is_some": 1002, "unwrap_nothing": 1003}[n.func.attr], [from_ast_expr(n.func.value)])
     raise Unencodable(f"expression node {type(n).__name__}: {ast.dump(n)[:80]}")
+
+
+def _is_unwrap(n):
+    return isinstance(n, ast.Call) and isinstance(n.func, ast.Attribute) and n.func.attr == "unwrap" \
+        and isinstance(n.func.value, ast.Name) and not n.args and not n.keywords
+
+
+def from_ast_simple_multi(s):
+    """one real block statement -> list of model statements (the for-template's
+    `x, it = res.unwrap()` is modelled as two assignments, see ForModel.v)"""
+    if isinstance(s, ast.Assign) and len(s.targets) == 1 and isinstance(s.targets[0], ast.Tuple) \
+            and _is_unwrap(s.value) and len(s.targets[0].elts) == 2 \
+            and all(isinstance(x, ast.Name) for x in s.targets[0].elts):
+        x, it = (_name(e.id) for e in s.targets[0].elts)
+        res = from_ast_expr(s.value.func.value)
+        if x[0] == "U" and it[0] == "T":
+            return [("Assign", ("TName", x), ("Call", 1004, [res])), ("Assign", ("TName", it), ("Call", 1005, [res]))]
+    return [from_ast_simple(s)]
 
 
 def from_ast_simple(s):
@@ -397,6 +467,8 @@ def conv_stmts(ns):
             out.append(("If", from_ast_expr(n.test), conv_stmts(n.body), conv_stmts(n.orelse)))
         elif isinstance(n, ast.While):
             out.append(("While", from_ast_expr(n.test), conv_stmts(n.body), conv_stmts(n.orelse)))
+        elif isinstance(n, ast.For) and isinstance(n.target, ast.Name) and _name(n.target.id)[0] == "U":
+            out.append(("For", _name(n.target.id)[1], from_ast_expr(n.iter), conv_stmts(n.body), conv_stmts(n.orelse)))
         elif isinstance(n, ast.Break):
             out.append(("Break",))
         elif isinstance(n, ast.Continue):
